@@ -186,6 +186,9 @@ def install(ctx, repo, probes):
     probes.set(TP, "seconds_since_unix_epoch", property(monitored))
     for m in R.MODES:
         ctx.target("mode/" + m)
+    ctx.target("oper/utc", "oper/local")
+    for m in R.MODES:
+        ctx.target("now/" + m)
     ctx.target("to_epoch/binary-fraction", "local/neg", "local/pos", "local/zero", "local/neg/zero-hour",
                "local/pos/zero-hour", "format/normal", "format/reduced",
                "format/extended", "from_epoch/utc/neg",
@@ -320,6 +323,54 @@ def _run_case(ctx, repo, case, MODE):
                 except Exception as exc:
                     ctx.violation("strptime_epoch", "strptime(%r, '%%s') "
                                   "raised %r" % (str(case["n"]), exc))
+            # the same count as "now" (the clock returns n) ...
+            if case["n"] >= 0:
+                ctx.ev("now.check")
+                with mock.patch("time.time", return_value=case["n"]):
+                    try:
+                        q = repo.data.get_timepoint_for_now(utc=case["utc"])
+                    except Exception as exc:
+                        q = exc
+                want = R.unix_epoch_rd(MODE) * 86400 + F(case["n"])
+                off = 0 if case["utc"] else case.get("std", 0) // 60
+                if isinstance(q, Exception) or \
+                        abs(R.tp_instant(MODE, q) - want) > TOL or \
+                        R.tp_offset_minutes(q) != off:
+                    ctx.violation("now.wrong", "get_timepoint_for_now(utc=%r)"
+                                  " with the clock at %r s (system offset %d "
+                                  "s, mode %s) gives %r" % (
+                                      case["utc"], case["n"],
+                                      case.get("std", 0), MODE,
+                                      q if isinstance(q, Exception)
+                                      else R.tp_key(q)))
+                else:
+                    ctx.cls("now/%s" % MODE)
+            # ... and through DateTimeOperator with a %s parse format, in
+            # UTC mode or not
+            if isinstance(case["n"], int):
+                ctx.ev("oper.check")
+                try:
+                    oper = repo.datetimeoper.DateTimeOperator(
+                        parse_format="%s", utc_mode=case["utc"],
+                        calendar_mode=MODE)
+                    q = oper.date_parse(str(case["n"]))[0]
+                except Exception as exc:
+                    q = exc
+                want = R.unix_epoch_rd(MODE) * 86400 + case["n"]
+                off = 0 if case["utc"] else case.get("std", 0) // 60
+                if isinstance(q, Exception) or \
+                        R.tp_instant(MODE, q) != want or \
+                        R.tp_offset_minutes(q) != off:
+                    ctx.violation("oper.wrong", "DateTimeOperator("
+                                  "parse_format='%%s', utc_mode=%r)."
+                                  "date_parse(%r) under system offset %d s "
+                                  "gives %r" % (
+                                      case["utc"], str(case["n"]),
+                                      case.get("std", 0),
+                                      q if isinstance(q, Exception)
+                                      else R.tp_key(q)))
+                else:
+                    ctx.cls("oper/%s" % ("utc" if case["utc"] else "local"))
         if case["n"]:
             ctx.nontrivial(("from", case["n"], case["utc"],
                             case.get("std", 0)))
@@ -409,7 +460,7 @@ def workload(ctx, repo):
             val = rng.randint(0, 4 * 10**9) + rng.choice(
                 (0.5, 0.25, 0.999999, 0.000001, rng.randrange(10**6) / 10**6))
         case = {"op": "from", "n": val, "utc": i % 2 == 0,
-                "std": 0 if i % 2 == 0 else 60 * rng.randint(-1440, 1440),
+                "std": 0 if i % 4 == 0 else 60 * rng.randint(-1440, 1440),
                 "mode": R.MODES[i % 4] if i % 3 == 0 else "gregorian"}
         ctx.cls("mode/" + case["mode"])
         if i % 4 == 1:
